@@ -17,7 +17,7 @@
    Second part: JSON rendering of one decision-log entry (json.dumps, ensure_ascii) and an
    RFC 8259 reader used as the specification of "well-formed JSON line".
    Third part: N processes appending to one file with O_APPEND, any schedule. *)
-From DippyV Require Import Base.Str Base.Verdict.
+From DippyV Require Import Base.Str Base.Verdict Gen.Tables.
 
 (* ------------------------------------------------------------------ exceptions, sites, faults *)
 Inductive exn := EOS | EValue | ERuntime | EOther.
@@ -42,17 +42,44 @@ Record catches := {
   c_setup : exn -> bool;    (* dippy.py setup_logging: except (OSError, PermissionError) *)
   c_expand : exn -> bool;   (* _apply_setting: except RuntimeError -> ValueError, caught per line by parse_config *)
   c_cfg : exn -> bool;      (* configure_logging *)
-  c_dec : exn -> bool       (* log_decision *)
+  c_dec : exn -> bool;      (* log_decision *)
+  c_tb : bool               (* logging.raiseExceptions: a failing handler prints a traceback on stderr *)
 }.
 Definition is_os e := exn_eqb e EOS.
 Definition is_os_or_value e := exn_eqb e EOS || exn_eqb e EValue.
 Definition is_rt_or_value e := exn_eqb e ERuntime || exn_eqb e EValue.
 (* the code as it is today *)
 Definition head : catches :=
-  {| c_setup := is_os; c_expand := is_rt_or_value; c_cfg := is_os_or_value; c_dec := is_os_or_value |}.
+  {| c_setup := is_os; c_expand := is_rt_or_value; c_cfg := is_os_or_value; c_dec := is_os_or_value; c_tb := true |}.
 (* before d0d4edf (ValueError for NUL) and bdbaab3 (RuntimeError of expanduser) *)
 Definition legacy : catches :=
-  {| c_setup := is_os; c_expand := exn_eqb EValue; c_cfg := is_os; c_dec := is_os |}.
+  {| c_setup := is_os; c_expand := exn_eqb EValue; c_cfg := is_os; c_dec := is_os; c_tb := true |}.
+(* proposed repair of the stderr finding: setup_logging sets logging.raiseExceptions = False *)
+Definition quiet : catches :=
+  {| c_setup := is_os; c_expand := is_rt_or_value; c_cfg := is_os_or_value; c_dec := is_os_or_value; c_tb := false |}.
+
+(* the except clauses as they are in the working tree right now (Gen/Tables.v is regenerated from
+   dippy.py / config.py on every run); Props/C15.v checks that this is [head] or [quiet] *)
+Definition catches_class (names : list str) (e : exn) : bool :=
+  let any := mem_str $"Exception" names || mem_str $"BaseException" names in
+  match e with
+  | EOS => mem_str $"OSError" names || mem_str $"IOError" names || mem_str $"EnvironmentError" names || any
+  | EValue => mem_str $"ValueError" names || any
+  | ERuntime => mem_str $"RuntimeError" names || any
+  | EOther => any
+  end.
+Definition current : catches :=
+  {| c_setup := catches_class LOG_SETUP_CATCHES;
+     (* a RuntimeError caught in _apply_setting is re-raised as ValueError; parse_config must catch that *)
+     c_expand := fun e => (catches_class LOG_EXPAND_CATCHES e || exn_eqb e EValue) && catches_class LOG_PARSE_LINE_CATCHES EValue;
+     c_cfg := catches_class LOG_CONFIGURE_CATCHES;
+     c_dec := catches_class LOG_DECISION_CATCHES;
+     c_tb := LOG_RAISE_EXCEPTIONS |}.
+Definition all_exn : list exn := [EOS; EValue; ERuntime; EOther].
+Definition catches_agree (a b : catches) : bool :=
+  forallb (fun e => Bool.eqb (c_setup a e) (c_setup b e) && Bool.eqb (c_expand a e) (c_expand b e)
+                    && Bool.eqb (c_cfg a e) (c_cfg b e) && Bool.eqb (c_dec a e) (c_dec b e)) all_exn
+  && Bool.eqb (c_tb a) (c_tb b).
 
 (* ------------------------------------------------------------------ the hook's input, abstracted *)
 Inductive mode := Claude | Gemini | Cursor.
@@ -98,6 +125,7 @@ Inductive appst := AppNone | AppFile | AppStderr.
 
 Record st := {
   n : nat;                       (* sink operations so far *)
+  ops : list site;               (* ... and at which sites, in order *)
   app : appst;
   applog : list level;           (* records appended to the approvals log *)
   errs : list level;             (* plain records on stderr (fallback handler) *)
@@ -108,32 +136,32 @@ Record st := {
   out : list outv
 }.
 Definition init : st :=
-  {| n := 0; app := AppNone; applog := []; errs := []; tbs := 0; lcfg := None; disabled := false;
+  {| n := 0; ops := []; app := AppNone; applog := []; errs := []; tbs := 0; lcfg := None; disabled := false;
      declog := []; out := [] |}.
 
-Definition tick (s : st) : st :=
-  {| n := S (n s); app := app s; applog := applog s; errs := errs s; tbs := tbs s; lcfg := lcfg s;
+Definition tick (x : site) (s : st) : st :=
+  {| n := S (n s); ops := ops s ++ [x]; app := app s; applog := applog s; errs := errs s; tbs := tbs s; lcfg := lcfg s;
      disabled := disabled s; declog := declog s; out := out s |}.
 Definition set_app (a : appst) (s : st) : st :=
-  {| n := n s; app := a; applog := applog s; errs := errs s; tbs := tbs s; lcfg := lcfg s;
+  {| n := n s; ops := ops s; app := a; applog := applog s; errs := errs s; tbs := tbs s; lcfg := lcfg s;
      disabled := disabled s; declog := declog s; out := out s |}.
 Definition add_applog (l : level) (s : st) : st :=
-  {| n := n s; app := app s; applog := applog s ++ [l]; errs := errs s; tbs := tbs s; lcfg := lcfg s;
+  {| n := n s; ops := ops s; app := app s; applog := applog s ++ [l]; errs := errs s; tbs := tbs s; lcfg := lcfg s;
      disabled := disabled s; declog := declog s; out := out s |}.
 Definition add_err (l : level) (s : st) : st :=
-  {| n := n s; app := app s; applog := applog s; errs := errs s ++ [l]; tbs := tbs s; lcfg := lcfg s;
+  {| n := n s; ops := ops s; app := app s; applog := applog s; errs := errs s ++ [l]; tbs := tbs s; lcfg := lcfg s;
      disabled := disabled s; declog := declog s; out := out s |}.
 Definition add_tb (s : st) : st :=
-  {| n := n s; app := app s; applog := applog s; errs := errs s; tbs := S (tbs s); lcfg := lcfg s;
+  {| n := n s; ops := ops s; app := app s; applog := applog s; errs := errs s; tbs := S (tbs s); lcfg := lcfg s;
      disabled := disabled s; declog := declog s; out := out s |}.
 Definition set_log (c : option (str * bool)) (d : bool) (s : st) : st :=
-  {| n := n s; app := app s; applog := applog s; errs := errs s; tbs := tbs s; lcfg := c;
+  {| n := n s; ops := ops s; app := app s; applog := applog s; errs := errs s; tbs := tbs s; lcfg := c;
      disabled := d; declog := declog s; out := out s |}.
 Definition add_declog (l : str) (s : st) : st :=
-  {| n := n s; app := app s; applog := applog s; errs := errs s; tbs := tbs s; lcfg := lcfg s;
+  {| n := n s; ops := ops s; app := app s; applog := applog s; errs := errs s; tbs := tbs s; lcfg := lcfg s;
      disabled := disabled s; declog := declog s ++ [l]; out := out s |}.
 Definition print (o : outv) (s : st) : st :=
-  {| n := n s; app := app s; applog := applog s; errs := errs s; tbs := tbs s; lcfg := lcfg s;
+  {| n := n s; ops := ops s; app := app s; applog := applog s; errs := errs s; tbs := tbs s; lcfg := lcfg s;
      disabled := disabled s; declog := declog s; out := out s ++ [o] |}.
 
 (* ------------------------------------------------------------------ JSON rendering (json.dumps) *)
@@ -279,7 +307,7 @@ Section Run.
   Definition raise : act := fun s => (s, true).
 
   (* consult the oracle for the next sink operation *)
-  Definition consult (x : site) (s : st) : option exn * st := (f x (n s), tick s).
+  Definition consult (x : site) (s : st) : option exn * st := (f x (n s), tick x s).
 
   (* logging.info / warning / error.  The logging module never lets an exception out of emit;
      with logging.raiseExceptions (true by default) it prints a traceback to stderr.  With no
@@ -289,7 +317,7 @@ Section Run.
     | AppFile =>
         let (r, s1) := consult Emit s in
         match r with
-        | Some _ => (add_tb s1, false)
+        | Some _ => ((if c_tb C then add_tb s1 else s1), false)
         | None => (add_applog l s1, false)
         end
     | _ =>
@@ -392,11 +420,11 @@ Section Run.
 
   Record result := {
     r_stdout : list outv; r_exit : nat; r_declog : list str; r_applog : list level;
-    r_stderr : list level; r_tracebacks : nat
+    r_stderr : list level; r_tracebacks : nat; r_ops : list site
   }.
   Definition finish (s : st) (code tb : nat) : result :=
     {| r_stdout := out s; r_exit := code; r_declog := declog s; r_applog := applog s;
-       r_stderr := errs s; r_tracebacks := tbs s + tb |}.
+       r_stderr := errs s; r_tracebacks := tbs s + tb; r_ops := ops s |}.
 
   (* main(): an exception out of setup_logging kills the process (traceback, exit 1); one out of
      the try body is logged and answered with {} *)
